@@ -127,6 +127,9 @@ func (w *World) loadRepoContracts(path, pkgShort string) error {
 	return nil
 }
 
+// knownFailing: obligations listed as known findings (set by the check driver).
+var knownFailing = map[string]bool{}
+
 type funcResult struct {
 	Key    string
 	VC     *VC
@@ -168,6 +171,12 @@ func (w *World) verifyFunc(key string, timeout int, all bool, only string) (*fun
 			if d := os.Getenv("GOVC_DUMP"); d != "" {
 				os.MkdirAll(d, 0o755)
 				os.WriteFile(filepath.Join(d, mangle(o.Name)+".smt2"), []byte(q), 0o644)
+			}
+			if knownFailing[o.Name] {
+				// listed known finding: a short attempt is enough to see whether it still fails
+				r := runSolver(solvers[0], q, 3)
+				o.Result, o.Backend, o.Ms = r.verdict, r.backend, r.ms
+				return
 			}
 			r := decide(solve(q, timeout, all))
 			o.Result, o.Backend, o.Ms = r.verdict, r.backend, r.ms
